@@ -53,7 +53,9 @@ PLAN = {
         unit("side", "TestC12Listener", 300, 3000, seed_off=900),
         {"pkg": "side", "test": "FuzzC12", "kind": "fuzz", "fuzztime": {"thorough": "180s"}, "checks": {"quick": 0, "thorough": 0}, "replay": None},
         unit("sys", "TestC12Sys", 3, 20, replay="TestReplayC12Sys", seed_off=950, shrinktime="30s", workers={"quick": 8, "thorough": 16})]},
-    "C13": {"level": "fault_enumeration", "units": [unit("side", "TestC13", 250, 3000, replay="TestReplayC13")]},
+    "C13": {"level": "fault_enumeration", "units": [
+        unit("side", "TestC13", 250, 3000, replay="TestReplayC13"),
+        unit("loop", "TestC13Stop", 150, 3000, seed_off=600, shrinktime="30s")]},
     "C14": {"level": "exploration", "units": [
         unit("side", "TestC14", 1000, 15000, replay="TestReplayC14"),
         {"pkg": "side", "test": "FuzzC14", "kind": "fuzz", "fuzztime": {"thorough": "180s"}, "checks": {"quick": 0, "thorough": 0}, "replay": None},
